@@ -1,6 +1,8 @@
 package main
 
 import (
+	"golang.org/x/tools/go/ssa"
+	"go/token"
 	"encoding/json"
 	"flag"
 	"fmt"
@@ -236,27 +238,47 @@ func cmdCheck(args []string) {
 		if u.unsupported != "" || len(u.retPCs) == 0 {
 			continue
 		}
-		ngu++
-		go func(u *Unit) {
-			pcs := append([][]string{}, u.retPCs...)
-			sort.SliceStable(pcs, func(i, j int) bool { return len(pcs[i]) < len(pcs[j]) })
-			ok, n := false, 0
-			for i, pc := range pcs {
-				if i >= 8 {
-					ok = true // not all paths examined: cannot conclude unreachability
-					break
-				}
-				o := &Oblig{Name: "cover", PC: pc, Goal: "true", Unit: u}
-				q := o.query(nil, false)
-				r := svg.solve(q, []string{"z3-new"})
-				n++
-				if r.Status != "unsat" {
-					ok = true
-					break
-				}
+		// one guard per return statement: a return that no explored path reaches with satisfiable assumptions means
+		// that every postcondition instance at that return was proved vacuously (contradictory contracts, lemma
+		// instances or engine facts). Returns that are dead in the code itself are declared with `dead-return LINE: reason`.
+		bySite := map[token.Pos][][]string{}
+		var sites []token.Pos
+		for i, pc := range u.retPCs {
+			pos := token.NoPos
+			if i < len(u.retPos) {
+				pos = u.retPos[i]
 			}
-			gout <- gres{"no return of " + p.keyOf[u.fn] + " is reachable under its preconditions and the instantiated lemmas", ok, n}
-		}(u)
+			if _, ok := bySite[pos]; !ok {
+				sites = append(sites, pos)
+			}
+			bySite[pos] = append(bySite[pos], pc)
+		}
+		for _, site := range sites {
+			if u.fc != nil && u.fc.deadReturn(returnOrdinal(u.fn, site)) {
+				continue
+			}
+			ngu++
+			go func(u *Unit, site token.Pos, pcs [][]string) {
+				sort.SliceStable(pcs, func(i, j int) bool { return len(pcs[i]) < len(pcs[j]) })
+				ok, n := false, 0
+				for i, pc := range pcs {
+					if i >= 12 {
+						ok = true // not all paths examined: cannot conclude unreachability
+						break
+					}
+					o := &Oblig{Name: "cover", PC: pc, Goal: "true", Unit: u}
+					q := o.query(nil, false)
+					r := svg.solve(q, []string{"z3-new"})
+					n++
+					if r.Status != "unsat" {
+						ok = true
+						break
+					}
+				}
+				pp := p.prog.Fset.Position(site)
+				gout <- gres{fmt.Sprintf("return #%d (%s:%d) of %s is unreachable under its preconditions, the contracts of its callees and the instantiated lemmas (all %d paths to it are contradictory)", returnOrdinal(u.fn, site), filepath.Base(pp.Filename), pp.Line, p.keyOf[u.fn], len(pcs)), ok, n}
+			}(u, site, bySite[site])
+		}
 	}
 	for _, o := range obs {
 		if o.Kind != "theorem" {
@@ -887,4 +909,25 @@ func sortedKeys(m map[string]bool) []string {
 	}
 	sort.Strings(ks)
 	return ks
+}
+
+// returnOrdinal numbers the return statements of a function in source order (1-based); 0 if pos is not a return.
+func returnOrdinal(fn *ssa.Function, pos token.Pos) int {
+	var ps []token.Pos
+	seen := map[token.Pos]bool{}
+	for _, b := range fn.Blocks {
+		for _, in := range b.Instrs {
+			if r, ok := in.(*ssa.Return); ok && !seen[r.Pos()] {
+				seen[r.Pos()] = true
+				ps = append(ps, r.Pos())
+			}
+		}
+	}
+	sort.Slice(ps, func(i, j int) bool { return ps[i] < ps[j] })
+	for i, x := range ps {
+		if x == pos {
+			return i + 1
+		}
+	}
+	return 0
 }
